@@ -201,9 +201,8 @@ func init() {
 					}
 					return s.Typed(ifaceType)
 				}
-				zero := reflect.New(ifaceType).Elem()
-				zero.Set(reflect.ValueOf(T3{})) // a non-nil interface holding T3's zero value
-				get(set).Value = zero
+				// the zero value of a concrete type, to be delivered through an interface-typed entry
+				get(set).Value = reflect.ValueOf(T3{})
 				set.Named("other").Value = mkVal(0, "o")
 				fresh, _ := am.NewValueSet([]am.Value{v, {Name: "other", Type: typeOf(0)}})
 				fresh.FromSignature(set.SignatureValues())
